@@ -59,7 +59,7 @@ func vkC04Events(thorough bool) []vkC04Ev {
 		{Kind: "neg", TTL: 30, Min: 7}, {Kind: "neg", TTL: 30, Min: 30, Cut: 3, Val: true}, {Kind: "neg", TTL: 30, Min: 7, Val: true},
 		{Kind: "negq", TTL: 30, Min: 30, Cut: 3, Val: true}, {Kind: "negq", TTL: 30, Min: 30, Val: true},
 		{Kind: "nn"}, {Kind: "xn"}, {Kind: "qq"},
-		{Kind: "adv", D: 1}, {Kind: "adv", D: 4}, {Kind: "adv", D: 6}, {Kind: "adv", D: 25},
+		{Kind: "adv", D: 1}, {Kind: "adv", D: 4}, {Kind: "adv", D: 6}, {Kind: "adv", D: 10}, {Kind: "adv", D: 25},
 		{Kind: "purge"},
 	}
 	if thorough {
